@@ -1,24 +1,23 @@
 /-
 C20 — property theorems.
 
-Full statement aimed at (kept here; NOT proven in full):
+Round 2: the full round trip is proven.
     theorem parse_print (a : Api) (h : WF a) : parse (print a) = some a
-  i.e. the parser reads back exactly the AST whose tokens the formatter wrote, for every statement kind.
-What is proven (`_partial` = the same statement restricted to a sub-grammar, nothing else weakened):
-  * `datatype_roundtrip`, `struct_fields_roundtrip` — full strength for every data type (base / any / interface{} /
-    pointer / slice / array / map / struct, nested to any depth) and every struct field list (named, several names,
-    embedded, embedded pointer, tags), at every sufficient fuel and in front of any continuation;
-  * `type_expr_roundtrip`, `type_decl_roundtrip_partial` — a `type Name [=] T` declaration through `parseStmt`;
-  * `norm_idempotent`, `format_idempotent_tokens` — what the formatter drops is dropped once: formatting the
-    formatted AST writes the same tokens (for every program, all statement kinds);
-  * `format_preserves_description`, `format_fixpoint` — for every program whose normal form round-trips
-    (`RoundTrips`), the formatted tokens parse to an AST with the same API description, and formatting that
-    again writes the same tokens.
-  Missing for the full statement: the round trip of info / import / syntax / service statements and of the
-  statement list (`RoundTrips (norm a)` for all well-formed `a`); these are checked on generated programs by the
-  driver (model parser = real parser on source and formatted text, model formatter = real formatter's tokens).
+  the parser reads back exactly the AST whose tokens the formatter wrote, for every statement kind
+  (`statement_roundtrip`; components: `datatype_roundtrip`, `struct_fields_roundtrip`, `type_expr_roundtrip`,
+  `path_roundtrip`, `service_items_roundtrip`, `atserver_value_roundtrip`), and with it
+    theorem format_correct (a : Api) (h : WF a) :
+      ∃ b, parse (format a) = some b ∧ sameDesc a b = true ∧ format b = format a ∧ WF b
+  formatting a well-formed program gives tokens that parse, to the same API description, and formatting the result
+  again writes the same tokens (`format_preserves_description_wf`, `format_fixpoint_wf`: the `RoundTrips` hypothesis of
+  round 1 is discharged by `parse_print` and `norm_wf`).
+  * `norm_idempotent`, `format_idempotent_tokens` — what the formatter drops is dropped once (every program).
+  * `WF` (every statement is one the parser can produce) is decidable; `format_correct_checked` is the form the driver
+    uses: it evaluates `wfApiB` on every AST the model parser builds.
+  Still missing for a hypothesis-free statement: `parse ts = some a → WF a` (inversion of the parser functions); and
+  everything about layout (comments, alignment, textual idempotence) is tested by the driver, not proven.
 -/
-import GoZero.C20.Proofs
+import GoZero.C20.WfDec
 namespace GoZero.C20
 
 /-- every data type: the parser reads back what the printer wrote, whatever follows -/
@@ -115,5 +114,145 @@ def sampleApi : Api :=
 
 example : (parse (print (norm sampleApi))).map dump = some (dump (norm sampleApi)) := by decide
 example : (norm sampleApi).length + 1 = sampleApi.length := by decide
+
+/-! ### round 2: the whole statement language -/
+
+/-- a well-formed program: every statement is something the parser can produce (`wfStmt`: identifiers that are not
+Go keywords, `STRING`/`RAW` values, HTTP methods, path segments that are not the word `returns`, ...) -/
+def WF (a : Api) : Prop := ∀ s ∈ a, wfStmt s
+
+/-- every statement kind: `parseStmt` reads back the statement `printStmt` wrote, whatever follows
+(syntax, info, import, import group, type, type group, service with @server / @doc / @handler / routes) -/
+theorem statement_roundtrip (s : Stmt) (f : Nat) (rest : List Tok) (hw : wfStmt s) (hf : szStmt s ≤ f) :
+    parseStmt f (printStmt s ++ rest) = some (s, rest) :=
+  parseStmt_print s f rest hw hf
+
+/-- route paths (`/a/:id-x/`), in front of any token that ends a path -/
+theorem path_roundtrip (p : Path) (f : Nat) (c : Tok) (rest : List Tok) (hw : wfPath p) (hf : szSegs p.segs ≤ f)
+    (hc : stopsPath c = true) : parsePath f (printPath p ++ c :: rest) = some (p, c :: rest) :=
+  parsePath_print p f c rest hw hf hc
+
+/-- service items: `[@doc] @handler h  METHOD path [(req)] [returns (resp)]`, in front of the closing brace -/
+theorem service_items_roundtrip (its : List Item) (f : Nat) (c : Tok) (rest : List Tok) (hw : ∀ i ∈ its, wfItem i)
+    (hf : szItems its ≤ f) (hc : c.k = .RBRACE ∧ c.s ≠ "returns") :
+    parseItems f (printItems its ++ c :: rest) = some (its, c :: rest) :=
+  parseItems_print its f c rest hw hf hc
+
+/-- `@server` values: literals, `a,b`, `a-b`, `/a-b/c`, `a/b` -/
+theorem atserver_value_roundtrip (v : SVal) (f : Nat) (c : Tok) (rest : List Tok) (hw : wfSVal v) (hf : szSVal v ≤ f)
+    (hc : nextKV c) : parseSVal f (printSVal v ++ c :: rest) = some (v, c :: rest) :=
+  parseSVal_print v f c rest hw hf hc
+
+/-- THE ROUND TRIP, full statement language: the parser reads back exactly the AST whose tokens the formatter wrote -/
+theorem parse_print (a : Api) (h : WF a) : parse (print a) = some a := by
+  unfold parse
+  exact parseStmts_print a _ h (by have := szApi_le_len a h; omega)
+
+theorem wf_roundTrips (a : Api) (h : WF a) : RoundTrips a := parse_print a h
+
+theorem normDoc_wf (d : Doc) (h : wfDoc d) : wfDoc (normDoc d) := by
+  cases d with
+  | none => trivial
+  | lit s => by_cases e : isZero s = true <;> simp [normDoc, e, wfDoc]
+  | group kvs =>
+    by_cases e : kvsEmpty kvs = true
+    · simp [normDoc, e, wfDoc]
+    · simp only [normDoc, e]; exact h
+
+theorem normStmt_wf (s t : Stmt) (h : normStmt s = some t) (hw : wfStmt s) : wfStmt t := by
+  cases s with
+  | syntaxS v => simp [normStmt] at h; subst h; exact hw
+  | info kvs =>
+    by_cases e : kvsEmpty kvs = true <;> simp [normStmt, e] at h
+    subst h; exact hw
+  | importLit v =>
+    by_cases e : isZero v = true <;> simp [normStmt, e] at h
+    subst h; exact hw
+  | importGroup vs =>
+    by_cases e : vs.all isZero = true
+    · simp [normStmt, e] at h
+    · have h' : normStmt (Stmt.importGroup vs) = some (Stmt.importGroup vs) := by
+        simp only [normStmt]; rw [if_neg e]
+      rw [h'] at h; cases h; exact hw
+  | typeLit e => simp [normStmt] at h; subst h; exact hw
+  | typeGroup es =>
+    by_cases e : es.isEmpty = true <;> simp [normStmt, e] at h
+    subst h; exact hw
+  | service at_ n api its =>
+    simp only [normStmt, Option.some.injEq] at h
+    subst h
+    obtain ⟨hwa, hwi⟩ := hw
+    refine ⟨?_, ?_⟩
+    · intro kvs hk kv hkv
+      cases at_ with
+      | none => simp at hk
+      | some k0 =>
+        by_cases e : skvsEmpty k0 = true
+        · simp [e] at hk
+        · simp [e] at hk; subst hk; exact hwa k0 rfl kv hkv
+    · intro i hi
+      obtain ⟨j, hj, rfl⟩ := List.mem_map.mp hi
+      obtain ⟨h1, h2, h3⟩ := hwi j hj
+      exact ⟨normDoc_wf j.doc h1, h2, h3⟩
+
+/-- what the formatter keeps of a well-formed program is well-formed -/
+theorem norm_wf (a : Api) (h : WF a) : WF (norm a) := by
+  intro t ht
+  obtain ⟨s, hs, hst⟩ := List.mem_filterMap.mp ht
+  exact normStmt_wf s t hst (h s hs)
+
+/-- FORMATTING PRESERVES THE DESCRIPTION, without the round-trip hypothesis: for every well-formed program the
+formatted tokens parse, to an AST with the same API description -/
+theorem format_preserves_description_wf (a : Api) (h : WF a) :
+    ∃ b, parse (format a) = some b ∧ sameDesc a b = true :=
+  format_preserves_description a (parse_print (norm a) (norm_wf a h))
+
+/-- AND IS A FIXPOINT: whatever the formatted tokens parse to is formatted to the same tokens again -/
+theorem format_fixpoint_wf (a b : Api) (h : WF a) (hb : parse (format a) = some b) : format b = format a :=
+  format_fixpoint a b (parse_print (norm a) (norm_wf a h)) hb
+
+/-- both together, as the property states it: parse ∘ format is defined, keeps the description, and a second
+formatting pass writes the same tokens -/
+theorem format_correct (a : Api) (h : WF a) :
+    ∃ b, parse (format a) = some b ∧ sameDesc a b = true ∧ format b = format a ∧ WF b := by
+  have hr := parse_print (norm a) (norm_wf a h)
+  refine ⟨norm a, hr, ?_, format_idempotent_tokens a, norm_wf a h⟩
+  simp [sameDesc, desc, norm_idem]
+
+/-- the form the driver uses: `wfApiB` is evaluated on every AST the model parser builds from a generated program -/
+theorem format_correct_checked (a : Api) (h : wfApiB a = true) :
+    ∃ b, parse (format a) = some b ∧ sameDesc a b = true ∧ format b = format a ∧ WF b :=
+  format_correct a (wfApiB_sound a h)
+
+/-- the sample program (all statement kinds, @server with a slashed value, paths with `:` and `-`) is well-formed:
+the hypotheses of the theorems above are satisfiable by a non-trivial program -/
+theorem sampleApi_wf : WF sampleApi := by
+  intro s hs
+  simp only [sampleApi, List.mem_cons, List.not_mem_nil, or_false] at hs
+  rcases hs with rfl | rfl | rfl | rfl | rfl | rfl
+  · trivial
+  · intro kv hkv; simp at hkv; subst hkv; exact Or.inl rfl
+  · trivial
+  · trivial
+  · intro e he
+    simp at he; subst he
+    refine ⟨by decide, ?_⟩
+    simp [wfDT, sampleFields, wfFields, anonOk, isKw, keywords]
+  · refine ⟨?_, ?_⟩
+    · intro kvs hk kv hkv
+      simp at hk; subst hk
+      simp at hkv
+      rcases hkv with rfl | rfl <;> simp [wfSVal]
+    · intro i hi
+      simp at hi
+      rcases hi with rfl | rfl
+      · refine ⟨trivial, by decide, ?_, Or.inl (by simp)⟩
+        intro sg hsg
+        simp at hsg
+        rcases hsg with rfl | rfl <;> simp [wfSeg]
+      · exact ⟨trivial, by decide, by simp, Or.inr rfl⟩
+
+example : ∃ b, parse (format sampleApi) = some b ∧ sameDesc sampleApi b = true ∧ format b = format sampleApi ∧ WF b :=
+  format_correct sampleApi sampleApi_wf
 
 end GoZero.C20
